@@ -247,7 +247,43 @@ func RunTierB(prop string, st *simcore.Stream, tier, leg string, logOn bool, res
 		}
 		nextID++
 		id := nextID
-		switch st.Intn(9) {
+		switch st.Intn(10) {
+		case 9: // a Receive (or ServeAsk) whose context is cancelled while it is blocked
+			if to == closedNode {
+				continue
+			}
+			serve := eps[to].HasAsk() && st.Bool(1, 2)
+			kind := "Receive"
+			if serve {
+				kind = "ServeAsk"
+			}
+			cctx, ccancel := context.WithCancel(context.Background())
+			ret := make(chan error, 1)
+			go func() {
+				if serve {
+					ret <- eps[to].ServeAsk(cctx, func(ctx context.Context, resp []byte, m Msg) int { return w.onAsk(eps[to], resp, m) })
+				} else {
+					ret <- eps[to].Receive(cctx, func(m Msg) { w.onTell(eps[to], m) })
+				}
+			}()
+			time.Sleep(time.Duration(1+st.Intn(20)) * time.Millisecond)
+			ccancel()
+			res.Fault("cancel-blocked-" + kind)
+			res.Checks++
+			select {
+			case err := <-ret:
+				// nil: it was handed a message just before the cancellation; otherwise the context's error
+				if err != nil && !errors.Is(err, context.Canceled) {
+					w.violate("cancelled-call-wrong-error", "%s whose context was cancelled returned %v instead of the context's error", kind, err).With("kind", kind)
+				}
+			case <-time.After(3 * time.Second):
+				w.violate("cancel-not-prompt", "%s was still blocked 3 seconds after its context had been cancelled (no traffic towards that node)", kind).With("kind", kind)
+				// unblock it so that the run can go on: one message towards that node
+				go func() { <-ret }()
+				do(3*time.Second, func(ctx context.Context) {
+					eps[from].Tell(ctx, to, p2p.IOVec{[]byte("wake-up for the stuck receiver, not in the ledger")})
+				})
+			}
 		case 8: // several asks from one node to one destination at the same time, with slow handlers
 			if !eps[from].HasAsk() {
 				continue
@@ -545,6 +581,7 @@ func RunTierB(prop string, st *simcore.Stream, tier, leg string, logOn bool, res
 		"C04": {"wrong-source-identity": true, "wrong-key-for-source": true, "lookup-in-handler-failed": true, "wrong-key-for-address": true, "whitelisted-out-delivered": true, "delivered-to-wrong-identity": true},
 		"C09": {"refused-within-mtu": true, "accepted-above-mtu": true, "not-delivered-within-mtu": true, "delivered-not-intact": true},
 		"C11": {"buffer-changed-in-callback": true, "ask-wrong-answer": true, "ask-success-without-handler": true, "ask-success-after-handler-failure": true, "ask-truncated-success": true, "ask-bad-length": true, "ask-request-not-asked": true, "ask-never-returned": true},
+		"C13": {"cancel-not-prompt": true, "cancelled-call-wrong-error": true},
 		"C16": {"address-does-not-parse": true, "address-changes-in-round-trip": true, "address-not-equal-after-round-trip": true},
 		"C12": {"late-call-blocked": true, "success-after-close": true, "delivery-after-close": true},
 	}[prop]
@@ -592,6 +629,9 @@ func (w *tbWorld) onTell(ep Endpoint, m Msg) {
 		w.violate("delivery-after-close", "node %d's Receive callback was handed a message after Close had returned", at)
 	}
 	t := w.tells[string(m.Payload)]
+	if t == nil && bytes.HasPrefix(m.Payload, []byte("wake-up for the stuck receiver")) {
+		return
+	}
 	if t == nil {
 		w.violate("payload-not-told", "node %d received %d bytes that nobody passed to Tell (%q...)", at, len(m.Payload), trunc24(m.Payload))
 		return
